@@ -147,12 +147,15 @@ def valid_nonce(c):
 
 
 # ---------------------------------------------------------------- rxpipe: receive pipeline
+BIG_LIMIT = 1 << 40
+
+
 def _rx_parse(c):
-    """-> (hlen, seals [(pn, n, plen)], deliveries [(kind, args)]) or None when malformed"""
-    if len(c) < 2:
+    """-> (hlen, seals [(pn, n, plen, payload)], deliveries [(kind, args, seals so far)]) or None when malformed"""
+    if len(c) < 3:
         return None
     hlen = 1 + min(c[1], 20)
-    i, seals, dl = 2, [], []
+    i, seals, dl = 3, [], []
     while i < len(c):
         op = c[i]
         if op == 0:
@@ -193,11 +196,18 @@ def _rx_parse(c):
     return hlen, seals, dl
 
 
+def _xor_predictable(hlen, n, pos, x):
+    """the decoded packet number of the garbled copy is still the original one (or it is not a 1-RTT packet at all)"""
+    if pos == 0:
+        return (x & 0xc0) != 0 or (x & 0x03) == 0
+    return not (hlen <= pos < hlen + n or hlen + 4 <= pos < hlen + 20)
+
+
 def valid_rx(c):
     if len(c) > 3000 or any(v < 0 for v in c):
         return False
     r = _rx_parse(c)
-    if r is None or not (0 <= c[1] <= 20) or c[0] >= (1 << 64):
+    if r is None or not (0 <= c[1] <= 20) or c[0] >= (1 << 64) or not (1 <= c[2] < (1 << 62)):
         return False
     hlen, seals, dl = r
     if not seals and any(d[0] != 5 for d in dl):
@@ -210,21 +220,30 @@ def valid_rx(c):
             return False
     lens = [hlen + n + plen + 16 for (_, n, plen, _) in seals]
     lenset = set(lens)
+    unpredictable = False
     for kind, a, avail in dl:
         if kind in (1, 2, 3) and not (0 <= a[0] < avail):
             return False
-        if kind == 2 and not (0 <= a[1] < lens[a[0]] and 1 <= a[2] <= 255):
-            return False
+        if kind == 2:
+            if not (0 <= a[1] < lens[a[0]] and 1 <= a[2] <= 255):
+                return False
+            if not _xor_predictable(hlen, seals[a[0]][1], a[1], a[2]):
+                unpredictable = True
         if kind == 3 and not (0 <= a[1] < lens[a[0]] and a[1] not in lenset):
             return False
         if kind == 4:
-            if not (0 <= a[0] < avail and 0 <= a[1] < avail):
+            if not (0 <= a[0] < avail and 0 <= a[1] < avail and a[2] >= 1):
                 return False
             res = min(a[2], lens[a[0]]) + lens[a[1]] - min(a[3], lens[a[1]])
             if res in lenset:
                 return False
-        if kind == 5 and a[0] in lenset:
-            return False
+            unpredictable = True
+        if kind == 5:
+            if a[0] in lenset:
+                return False
+            unpredictable = True
+    if unpredictable and c[2] <= len(dl):
+        return False
     return True
 
 
@@ -233,16 +252,18 @@ def gen_rx(rng):
         c = _gen_rx_once(rng)
         if valid_rx(c):
             return c
-    return [1, 0, 0, 1, 1, 3, 1, 2, 3, 1, 0, 1, 0]
+    return [1, 1, 5, 0, 1, 1, 3, 1, 2, 3, 1, 0, 1, 0]
 
 
 def _gen_rx_once(rng):
     seed = rng.randrange(1 << 64)
     dcid = rng.choice([0, 1, 4, 8, 8, 16, 20])
     hlen = 1 + dcid
+    limited = rng.random() < 0.4                       # small integrity limit: only garblings with a determined pn
+    limit = rng.choice([1, 2, 3, 3, 4, 6, 10]) if limited else BIG_LIMIT
     big = rng.random() < 0.5
     base = rng.randrange(0, 12000) if big else rng.randrange(0, 40)
-    c = [seed, dcid]
+    c = [seed, dcid, limit]
     seals = []
     lens = []
     nops = rng.choice([2, 4, 8, 16, 30])
@@ -270,10 +291,20 @@ def _gen_rx_once(rng):
             if rng.random() < 0.3:
                 c += [1, k]                                            # immediate replay
         elif r < 0.75:
-            pos = rng.choice([0, 0, hlen - 1, hlen, hlen + seals[k][1] - 1, hlen + 4, hlen + 19, lens[k] - 16, lens[k] - 1, rng.randrange(lens[k])])
-            c += [2, k, max(0, min(lens[k] - 1, pos)), rng.choice([1, 2, 3, 0x40, 0x80, 0x1f, 0xff, rng.randrange(1, 256)])]
+            n = seals[k][1]
+            if limited:
+                cand = [0] * 2 + list(range(1, hlen)) + list(range(hlen + n, hlen + 4)) + list(range(hlen + 20, lens[k]))
+                pos = rng.choice(cand)
+                x = rng.choice([0x04, 0x08, 0x10, 0x18, 0x20, 0x40, 0x80, 0xc0]) if pos == 0 else rng.choice([1, 2, 0x80, 0xff, rng.randrange(1, 256)])
+            else:
+                pos = rng.choice([0, 0, hlen - 1, hlen, hlen + n - 1, hlen + 4, hlen + 19, lens[k] - 16, lens[k] - 1, rng.randrange(lens[k])])
+                pos = max(0, min(lens[k] - 1, pos))
+                x = rng.choice([1, 2, 3, 0x40, 0x80, 0x1f, 0xff, rng.randrange(1, 256)])
+            c += [2, k, pos, x]
         elif r < 0.83:
             c += [3, k, rng.choice([0, 1, hlen, hlen + 4, hlen + 19, hlen + 20, lens[k] - 16, lens[k] - 1, rng.randrange(lens[k])])]
+        elif limited:
+            c += [1, k]
         elif r < 0.93:
             j = rng.randrange(len(seals))
             hk = hlen + seals[k][1]
@@ -281,23 +312,26 @@ def _gen_rx_once(rng):
             if rng.random() < 0.6:
                 c += [4, k, j, hk, hj]                                 # header of #k, body of #j
             else:
-                c += [4, k, j, rng.randrange(lens[k] + 1), rng.randrange(lens[j] + 1)]
+                c += [4, k, j, rng.randrange(1, lens[k] + 1), rng.randrange(lens[j] + 1)]
         else:
             ln = rng.choice([0, 1, 5, 16, 20, 21, 30, 40, 60, 100])
-            c += [5, ln] + _rbytes(rng, ln)
+            b = _rbytes(rng, ln)
+            if b and rng.random() < 0.7:
+                b[0] = 0x40 | (b[0] & 0x3f)
+            c += [5, ln] + b
     return c
 
 
 def fixed_rx(tier):
     """for a few sealed packets: every single-byte mutation at every position (exhaustive over positions),
-    every truncation, then the genuine packet, then its replay"""
+    every truncation, then the genuine packet, then its replay; integrity-limit histories"""
     out = []
-    for dcid, n, plen, pn in ((0, 1, 3, 5), (8, 2, 9, 300), (20, 4, 30, 4000), (4, 3, 17, 70)):
+    for dcid, n, plen, pn in ((1, 1, 3, 5), (8, 2, 9, 300), (20, 4, 30, 4000), (4, 3, 17, 70)):
         hlen = 1 + dcid
         ln = hlen + n + plen + 16
         pay = [(7 * i + 1) % 256 for i in range(plen)]
         for x in ((0x01, 0x80, 0xff) if tier == "quick" else (1, 2, 4, 8, 0x10, 0x20, 0x40, 0x80, 0xff, 0x55)):
-            c = [0x1234567 + x, dcid, 0, pn, n, plen] + pay
+            c = [0x1234567 + x, dcid, BIG_LIMIT, 0, pn, n, plen] + pay
             for pos in range(ln):
                 c += [2, 0, pos, x]
             for newlen in range(ln):
@@ -308,7 +342,17 @@ def fixed_rx(tier):
             out.append(c)
     # window edges: 129 below the largest processed packet number is too old, 128 is not
     for d in (127, 128, 129, 130):
-        out.append([99, 8, 0, 1000, 2, 4, 1, 2, 3, 4, 0, 1000 - d, 2, 4, 9, 9, 9, 9, 1, 0, 1, 1, 1, 1, 1, 0])
+        out.append([99, 8, BIG_LIMIT, 0, 1000, 2, 4, 1, 2, 3, 4, 0, 1000 - d, 2, 4, 9, 9, 9, 9, 1, 0, 1, 1, 1, 1, 1, 0])
+    # integrity limit L: garbled copies (tag byte flipped) of a FRESH packet number; the L-th closes the connection
+    for L in (1, 2, 3, 5):
+        c = [7, 8, L, 0, 10, 2, 6, 1, 2, 3, 4, 5, 6, 0, 11, 2, 6, 6, 5, 4, 3, 2, 1, 1, 0]
+        c += [2, 1, 8 + 1 + 2 + 6 + 15, 1] * (L + 1) + [1, 1]
+        out.append(c)
+    # garbled copies of an ALREADY PROCESSED packet number are reported Duplicate before the limit error is looked at
+    for L in (1, 3):
+        c = [7, 8, L, 0, 10, 2, 6, 1, 2, 3, 4, 5, 6, 0, 11, 2, 6, 6, 5, 4, 3, 2, 1, 1, 0]
+        c += [2, 0, 8 + 1 + 2 + 6 + 15, 1] * (L + 3) + [2, 1, 8 + 1 + 2 + 6 + 15, 1, 1, 1]
+        out.append(c)
     return out
 
 
@@ -379,10 +423,12 @@ registry.register("C06", {
          "nontrivial": lambda case, out: True},
         {"name": "rxpipe", "gen": gen_rx, "fixed": fixed_rx, "quick": 8000, "thorough": 300000,
          "valid": valid_rx,
-         "nontrivial": lambda case, out: 0 in out[:1] or (len(out) > 1 and any(v in (1, 3, 4) for v in out)),
+         "nontrivial": lambda case, out: 0 in out[:1] or (len(out) > 1 and any(v in (1, 3, 4, 6) for v in out)),
          "histogram": lambda cases, outs: {
              "ops": {str(k): sum(sum(1 for d in (_rx_parse(c) or (0, [], []))[2] if d[0] == k) for c in cases) for k in (1, 2, 3, 4, 5)},
-             "sealed": sum(len((_rx_parse(c) or (0, [], []))[1]) for c in cases)}},
+             "sealed": sum(len((_rx_parse(c) or (0, [], []))[1]) for c in cases),
+             "small_integrity_limit": sum(1 for c in cases if len(c) > 2 and c[2] < BIG_LIMIT),
+             "closed_with_aead_limit": sum(1 for o in outs if " 6 " in " " + o + " " and " 5" in o or o.endswith(" 6") or o == "6")}},
         {"name": "reset", "gen": gen_reset, "fixed": fixed_reset, "quick": 20000, "thorough": 500000,
          "valid": lambda c: len(c) >= 1 and 0 <= c[0] <= 8 and len(c) >= 1 + 16 * c[0] and all(0 <= v <= 255 for v in c[1:]),
          "nontrivial": lambda case, out: case[0] > 0 and len(case) - 1 - 16 * case[0] >= 16,
